@@ -244,6 +244,10 @@ func panicSig(stack []byte) string {
 				f = f[:i]
 			}
 			f = strings.TrimSuffix(f, ".func1")
+			if i := strings.LastIndex(f, "/"); i >= 0 {
+				f = f[i+1:]
+			}
+			f = strings.NewReplacer("(*", "", ")", "").Replace(f)
 			return "panic:" + f
 		}
 	}
